@@ -408,6 +408,20 @@ def oracle_defexpand(case):
     elif "DEF_EXPAND_INVALID" not in codes:
         out.bad(f"defexpand-altered-content-accepted:{case['mode']}", f"{case['text']!r} defs={case['defs']} -> "
                                                                       f"{sorted(codes)}")
+    # the column-wise gatherer judges a written Def-expand group of a KNOWN definition by the same comparison
+    from hed.models import df_util
+    if case["mode"] == "no_content":
+        return out      # a Def-expand tag alone in its group: nothing is stated about the gatherer for that shape
+    try:
+        _, ambiguous, errors = df_util.process_def_expands([case["text"]], sch, known_defs=DefinitionDict(case["defs"], sch))
+    except Exception as exc:  # noqa
+        from vlib.core import crash_signature
+        return out.bad(crash_signature(exc, "gatherer-raises") or f"gatherer-raises:{type(exc).__name__}",
+                       f"{exc!r}: {case['text']!r}")
+    if case["mode"] == "true" and (errors or ambiguous):
+        out.bad("gatherer-rejects-true-content", f"{case['text']!r} defs={case['defs']} -> errors {list(errors)}")
+    if case["mode"] in ("extra", "removed", "changed_value", "swapped_tag") and not errors:
+        out.bad(f"gatherer-accepts-altered-content:{case['mode']}", f"{case['text']!r} defs={case['defs']}")
     return out
 
 
